@@ -710,6 +710,12 @@ func main() {
 			os.Exit(2)
 		}
 		r.Seed = v.Seed
+		if w.Path == concPath {
+			d := setup()
+			concurrentPhase(r, []*prepared{prepare(r, w.Group)}, 400)
+			cleanup(d)
+			r.Finish(mon.Coverage{Evaluations: r.Get("concurrent_trials") + 1, DistinctNontrivial: 2, Rule: "replay: 400 concurrent-arrival trials on the recorded group (interleavings are not controlled)"})
+		}
 		if w.Path == "round1" {
 			var rw Round1Witness
 			var rwrap struct {
@@ -761,6 +767,7 @@ func main() {
 		}
 	}
 	preps := runGroups(r, groups, orders, r.Thorough())
+	concurrentPhase(r, preps, r.Pick(500, 8000))
 
 	// samples
 	seenKind := map[string]bool{}
@@ -781,7 +788,7 @@ func main() {
 	}
 	cleanup(d)
 
-	evals := r.Get("recoveries_threshold") + r.Get("recoveries_all_shares") + r.Get("generator_runs") + r.Get("round1_sequences")
+	evals := r.Get("recoveries_threshold") + r.Get("recoveries_all_shares") + r.Get("generator_runs") + r.Get("round1_sequences") + r.Get("concurrent_trials")
 	r.Finish(mon.Coverage{
 		Evaluations:        evals,
 		DistinctNontrivial: int64(r.DistinctCount("subset") + r.DistinctCount("round1_subset")),
@@ -791,6 +798,7 @@ func main() {
 			"model.GroupSignGenerator.AddWitnessSign in a random arrival order; each result byte-compared with Sign(sum of dealer constant terms mod r, msg) and verified under AggregatePubkeys(dealer pubkeys). " +
 			"Non-trivial: subset of size >= k with k >= 2; distinct by (group, subset). Subsets are exhaustive per group; groups and messages are sampled. " +
 			"Dealer restarts: in about half of the groups (VerifDKGWithRebuild) one, several or all dealers rebuild their group-init context at a random split point of the member list and deal again; the same oracles apply (esp. to subsets mixing members served before and after), plus: every member's aggregated key equals the one from the uninterrupted exchange. " +
+			"Concurrent arrival: trials on the same groups with a fresh model.GroupSignGenerator, one goroutine per member leaving a barrier (AddWitnessSign then SignRecovered/GetGroupSign/VerifySig) plus 2-6 polling readers; every signature read after SignRecovered()==true and the final one must equal the group signature and verify; interleavings are uncontrolled. " +
 			"Production collector: for further DKG groups (fresh/small/georder/topbit/mixed ids) the members' honest ConsensusVerifyMessages of sampled subsets (sizes k, k+1, .., n; all or many of size k) are fed to the real round-1 handler " +
 			"(logical.round1.Update via VerifNewRound1, public shares looked up through GroupCreateProcessor/JoinedGroupStorage) in random arrival orders; after exactly k shares the round must have recovered and " +
 			"Header().Signature / Header().Random must equal Sign(sum, block hash) / Sign(sum, previous beacon); round2.checkSignature must accept",
@@ -799,6 +807,7 @@ func main() {
 			"logical.groupSignGenerator is driven through round1.Update only (honest messages; Byzantine senders are C15's subject)"},
 		MustObserve: []string{"dkg_runs", "share_verifications", "gpk_checks", "recoveries_threshold", "recoveries_random_k_subset", "recoveries_all_shares", "generator_runs", "recovered_verifications", "groups_subsets_exhaustive",
 			"round1_groups", "round1_sequences", "round1_messages", "round1_recoveries_checked",
+			"concurrent_trials", "concurrent_reads_after_recovered", "concurrent_reads_overlapping_arrivals",
 			"groups_with_rebuild", "subsets_mixed_rebuild", "rebuild_piece_sum_comparisons", "round1_sequences_mixed_rebuild"},
 	})
 }
